@@ -81,6 +81,8 @@ PROPS = {
     },
     'C06': {
         'verus': [U_PER, U_UPER, U_BITS_DEP],
+        'glue': GLUE_ZOO,
+        'glue_filter': r'verif_g13_consts_c_',
         'search_groups': ['per', 'charset', 'strings'],
         'bounded_search': [('strings', 'BOUNDED stand-in for the BODIES of write_utf8string / write_ia5string / write_numeric_string / write_printable_string / write_visible_string (str::chars() loops outside Verus; '
                                        'only their protocol-level contract is assumed in unit uper): through the real Writer API, 5 string types x 5 SIZE constraint variants (none, 1..4, 2..2, 0..3 extensible, 2..3) x every string of '
@@ -88,7 +90,9 @@ PROPS = {
                                        'a character outside the alphabet or a count outside a non-extensible SIZE ==> Err; an admissible value is not rejected')],
         'kani_quick': [('charset_is_valid', 120, True)],
         'assumptions': PER_ASSUMPTIONS + ['UperWriter::write_extensible_bit_and_length_or_err is under contract in unit uper; the BODIES of the restricted-string writers (chars() loops) are not: their SIZE / alphabet checks are covered by the bounded stand-in `strings` '
-                                          '(exhaustive within its stated bound, never counted as discharged) and, below them, by the verified PackedWrite layer and the complete Kani proof of Charset::is_valid'],
+                                          '(exhaustive within its stated bound, never counted as discharged) and, below them, by the verified PackedWrite layer and the complete Kani proof of Charset::is_valid',
+                                          'that the bounds the encoder checks against (MIN / MAX / EXTENSIBLE of the generated constraint types) are those of the SCHEMA is decided for the 43 components of the glue zoo that carry an `-- @expect-c` line '
+                                          '(unit glue, rule G13: generated constants proved equal to the hand-derived ones; bounded in programs) and assumed for every other schema'],
         'trusted_base': COMMON_TRUSTED + PER_TRUSTED + KANI_TRUSTED,
         'explanation': 'For every PackedWrite entry point the post-condition r is Ok ==> admissible(args) is verified (INTEGER range incl. single-value ranges, '
                        'length determinant bounds, SIZE of octet/bit strings, CHOICE/ENUMERATED index), with the error kind and "nothing written" on rejection; '
@@ -279,9 +283,10 @@ PROPS = {
     'C20': {
         'kani_quick': [('der_length_roundtrip', 300, True), ('der_identifier_roundtrip', 300, True), ('der_boolean', 300, True),
                        ('der_integer_i64_roundtrip', 300, True), ('der_integer_u64_roundtrip', 300, True), ('der_readers_total', 300, True),
-                       ('der_enumerated_roundtrip', 900, True), ('der_number_octet_roundtrip', 900, True)],
+                       ('der_enumerated_roundtrip', 900, True), ('der_number_octet_roundtrip', 900, True),
+                       ('der_enumerated_tagged_roundtrip', 900, True), ('der_length_short_reads', 300, True)],
         'kani_thorough': [('der_enum_wide_roundtrip', 1800, True), ('der_number_tlv_roundtrip', 1800, True), ('der_number_narrow_roundtrip', 3000, True)],
-        'assumptions': ['std::io::Write for Vec<u8> / std::io::Read for &[u8] as compiled (part of the checked program)'],
+        'assumptions': ['std::io::Write for Vec<u8> / std::io::Read for &[u8] as compiled (part of the checked program); short reads: one harness (der_length_short_reads, which also covers read_integer_u64) drives a reader that delivers one octet per call'],
         'trusted_base': KANI_TRUSTED,
         'explanation': 'Loop-free / width-bounded Kani harnesses over ALL u64 lengths, all four tag classes x number < 64, all octets, all i64/u64: read(write(v)) == v, '
                        'exact byte consumption; any non-zero octet reads as true. Complete proofs (<= 10 bytes flow, unwinding assertions pass).',
